@@ -94,16 +94,14 @@ impl BigNum {
     /// assert_eq!("-4321", b.to_string());
     /// ```
     pub fn new(n: isize) -> BigNum {
-        if n >= 0 {
-            BigNum {
-                pos: true,
-                val: vec![n as u32],
-            }
-        } else {
-            BigNum {
-                pos: false,
-                val: vec![(-n) as u32],
-            }
+        let m = n.unsigned_abs() as u64;
+        BigNum {
+            pos: n >= 0,
+            val: if m >> 32 == 0 {
+                vec![m as u32]
+            } else {
+                vec![m as u32, (m >> 32) as u32]
+            },
         }
     }
 
